@@ -111,6 +111,76 @@ def strippedMembers (st : Strategy) : Members → Option (List Str)
     pure (a :: r)
 end
 
+/-! ## the memo `ns.Names`
+
+`NameStrategy.Name` looks the type up in `ns.Names` first and stores what it computed.  The code keys the memo by the
+type's identity (pointer); the model keys it by structure, which can only produce more hits: `Props/C14.memo_transparent`
+shows that every entry, and hence every hit, is the name the memo-free `name` gives. -/
+section memo
+variable [DecidableEq Ty]
+
+abbrev Memo := List (Ty × Str)
+
+/-- a computation over the memo that may panic -/
+abbrev MemoM (α : Type) := Memo → Memo × Option α
+
+def MemoM.pure {α} (a : α) : MemoM α := fun c => (c, some a)
+
+def MemoM.bind {α β} (m : MemoM α) (f : α → MemoM β) : MemoM β := fun c =>
+  match m c with
+  | (c', none) => (c', none)
+  | (c', some a) => f a c'
+
+/-- `removePrefixAndSuffix` of a computed name -/
+def MemoM.strip (st : Strategy) (m : MemoM Str) : MemoM Str :=
+  MemoM.bind m (fun s c => (c, Namer.strip st.pre st.post s))
+
+/-- look up, else compute and store -/
+def memoized (t : Ty) (m : MemoM Str) : MemoM Str := fun c =>
+  match AL.lookup t c with
+  | some s => (c, some s)
+  | none =>
+    match m c with
+    | (c', some s) => ((t, s) :: c', some s)
+    | (c', none) => (c', none)
+
+mutual
+/-- `NameStrategy.Name` with its memo -/
+def nameM (st : Strategy) : Ty → MemoM Str
+  | .named pkg n => memoized (.named pkg n) (MemoM.pure (st.join (lastK (st.prepend + 1) (filterDirs st pkg ++ [n]))))
+  | .builtin n => memoized (.builtin n) (MemoM.pure (st.join [n]))
+  | .map k e => memoized (.map k e)
+      (MemoM.bind (MemoM.strip st (nameM st k)) fun a => MemoM.bind (MemoM.strip st (nameM st e)) fun b =>
+        MemoM.pure (st.join ["Map".toList, a, "To".toList, b]))
+  | .slice e => memoized (.slice e) (MemoM.bind (MemoM.strip st (nameM st e)) fun a => MemoM.pure (st.join ["Slice".toList, a]))
+  | .array len e => memoized (.array len e)
+      (MemoM.bind (MemoM.strip st (nameM st e)) fun a => MemoM.pure (st.join ["Array".toList, natStr len, a]))
+  | .pointer e => memoized (.pointer e) (MemoM.bind (MemoM.strip st (nameM st e)) fun a => MemoM.pure (st.join ["Pointer".toList, a]))
+  | .chan e => memoized (.chan e) (MemoM.bind (MemoM.strip st (nameM st e)) fun a => MemoM.pure (st.join ["Chan".toList, a]))
+  | .struct ms => memoized (.struct ms) (MemoM.bind (membersM st ms) fun l => MemoM.pure (st.join ("Struct".toList :: l)))
+  | .iface methods => memoized (.iface methods) (MemoM.pure (st.join ("Interface".toList :: sortStrs methods)))
+  | .func ps rs => memoized (.func ps rs)
+      (MemoM.bind (allM st ps) fun a => MemoM.bind (allM st rs) fun b =>
+        MemoM.pure (st.join ("Func".toList :: a ++ "Returns".toList :: b)))
+  | .other kind => memoized (.other kind) (MemoM.pure ("unnameable_".toList ++ kind))
+def allM (st : Strategy) : Tys → MemoM (List Str)
+  | .nil => MemoM.pure []
+  | .cons t ts => MemoM.bind (MemoM.strip st (nameM st t)) fun a => MemoM.bind (allM st ts) fun r => MemoM.pure (a :: r)
+def membersM (st : Strategy) : Members → MemoM (List Str)
+  | .nil => MemoM.pure []
+  | .cons _ t ms => MemoM.bind (MemoM.strip st (nameM st t)) fun a => MemoM.bind (membersM st ms) fun r => MemoM.pure (a :: r)
+end
+
+/-- a sequence of `Name` calls on one strategy object -/
+def namesM (st : Strategy) : List Ty → Memo → Memo × List (Option Str)
+  | [], c => (c, [])
+  | t :: ts, c =>
+    let r := nameM st t c
+    let rs := namesM st ts r.1
+    (rs.1, r.2 :: rs.2)
+
+end memo
+
 /-! ## plural namer -/
 
 def consonants : Str := "bcdfghjklmnpqrstvwxyz".toList
